@@ -420,7 +420,9 @@ def run(ctx):
                 'integers beyond 2^53 that are not doubles, moderate and short decimals; spelled as shortest repr, '
                 '%%.17g, %%.17e, 25 digits, exact binary expansion, just off a rounding midpoint (45 digits), E / + / '
                 'white space variants; placed as plain <cn>, <cn type="e-notation">m<sep/>e</cn> with shifted mantissa, '
-                'initial_value of constants and of the state variable, and as bare MathML fragments.' % n)
+                'initial_value of constants and of the state variable, and as bare MathML fragments; 15%% of the <cn> texts with a bare '
+                'decimal point or redundant zeros (5. / .5 / 5.e3 / 005.0 / 5.000), 10%% of the documents with the digits supplied '
+                'through internal XML entities.' % n)
     ctx.trusted += ['tools/translate_precision.py (FLOAT_PRECISION, _cn_handler conversions and format, Quantity.__float__ / '
                     '_eval_evalf, Variable.initial_value, Printer._print_float/_print_Float shapes)',
                     'CPython float(text) correctly rounded and repr(float) round-trips (cross-checked against exact '
